@@ -169,7 +169,13 @@ def stmt(n):
                 out.append('decl ' + str(d.get('kind')))
         return ', '.join(out)
     if k == 'CXXTryStmt':
-        return 'try ' + stmt(ks[0]) + ' ' + ' '.join('catch ' + stmt(A.kids(c)[-1]) for c in ks[1:])
+        def handler(c):
+            # what is caught is part of the skeleton: `catch(...)` / `catch(<type>)`
+            cs = A.kids(c)
+            var = cs[0] if len(cs) > 1 and cs[0].get('kind') == 'VarDecl' else None
+            ty = ''.join(((var.get('type') or {}).get('qualType', '?')).split()) if var is not None else '...'
+            return 'catch(' + ty + ') ' + stmt(cs[-1])
+        return 'try ' + stmt(ks[0]) + ' ' + ' '.join(handler(c) for c in ks[1:])
     if k in ('BreakStmt', 'ContinueStmt', 'NullStmt'):
         return k[:-4].lower()
     if k == 'CoreturnStmt':
